@@ -41,3 +41,9 @@ for __value in list(locals().values()):
         __value.__module__ = __name__
 
 del __value
+
+# Optional tracing for the external verification harness (see _verif.py); off by default
+from . import _verif as _verif  # noqa: E402
+
+if _verif.ON:
+    _verif.install()
